@@ -8,14 +8,18 @@ for d in sorted(glob.glob(os.path.join(src, '*.diff'))):
     sid = os.path.basename(d)[:-5]
     demo, meta = os.path.join(src, sid + '.demo.txt'), os.path.join(src, sid + '.meta.json')
     dst = os.path.join(V, 'seeded', sid)
-    if not (os.path.exists(demo) and os.path.exists(meta)) or os.path.exists(dst):
+    if not os.path.exists(meta) or os.path.exists(dst):
+        continue
+    if not os.path.exists(demo) and 'BEN' not in sid:
         continue
     try:
         m = json.load(open(meta))
     except Exception as e:
         print('skip', sid, e); continue
     os.makedirs(dst)
-    shutil.copy(d, os.path.join(dst, 'patch.diff')); shutil.copy(demo, os.path.join(dst, 'demonstration.txt'))
-    m.setdefault('property', sid.split('-')[0]); m['origin'] = 'sub-agent given only the property text and a scratch worktree'
+    shutil.copy(d, os.path.join(dst, 'patch.diff')); (os.path.exists(demo) and shutil.copy(demo, os.path.join(dst, 'demonstration.txt')))
+    if m.get('kind') != 'benign':
+        m.setdefault('property', sid.split('-')[0])
+    m['origin'] = 'sub-agent given only the property text and a scratch worktree'
     json.dump(m, open(os.path.join(dst, 'meta.json'), 'w'), indent=1)
     print('imported', sid)
